@@ -86,3 +86,9 @@ Theorem C07_gf_lib_ok : gf_ok gf_lib.  Proof. exact gf_lib_ok. Qed.
 Print Assumptions C07_gf_lib_ok.
 Theorem C07_gf_lib_keeps_rxq : gf_keeps_rxq gf_lib.  Proof. exact gf_lib_keeps_rxq. Qed.
 Print Assumptions C07_gf_lib_keeps_rxq.
+
+(* the device-list half: for every message history the model of tN2kDeviceList never uses a freed entry and never indexes Sources[]
+   outside its bounds (statement and proof shared with C18) *)
+From N2kV Require Spec.DevListSpec Proofs.DevListProofs.
+Theorem C07_devlist_heap_safe : DevListSpec.heap_safe_stmt.  Proof. exact DevListProofs.heap_safe. Qed.
+Print Assumptions C07_devlist_heap_safe.
